@@ -215,6 +215,12 @@ func runC33(c *Ctx) []Obligation {
 	}
 	out := c.Rows(rows)
 	out = append(out, c.sessionDeterminism(P))
+	// the candidate list comes from the validators-by-chain cache, keyed by (height, chain)
+	out = append(out,
+		c.keyInjective(P, "candidates.cache-key-injective", "types.GetCacheKey", "a colliding key would hand session selection the node list of another chain or height"),
+		c.sameOperand(P, "candidates.cache-read-and-fill-same-key", "(x/nodes/keeper.Keeper).GetValidatorsByChain", `^types\.GetCacheKey\(`, 0, `^types\.GetCacheKey\(`, 0, "the list is cached under the height it was read at"),
+		c.sameOperand(P, "candidates.cache-read-and-fill-same-chain", "(x/nodes/keeper.Keeper).GetValidatorsByChain", `^types\.GetCacheKey\(`, 1, `^types\.GetCacheKey\(`, 1, "and under the chain it was read for"),
+	)
 	return out
 }
 
